@@ -16,6 +16,7 @@ import (
 type structuredPath struct {
 	Leaves  []ast.Node // leaf statements, if-init statements and condition expressions, in order
 	Taken   []string   // human-readable record of the arms taken
+	Conds   []condLit  // the conditions along the path with the arm taken (Neg: the else arm)
 	Leaving bool       // the path ends in a leaving statement
 }
 
@@ -32,6 +33,7 @@ func structuredPaths(info *types.Info, fset *token.FileSet, list []ast.Stmt, lim
 		}
 		c.path.Leaves = append([]ast.Node(nil), s.path.Leaves...)
 		c.path.Taken = append([]string(nil), s.path.Taken...)
+		c.path.Conds = append([]condLit(nil), s.path.Conds...)
 		c.path.Leaving = s.path.Leaving
 		return c
 	}
@@ -120,9 +122,11 @@ func structuredPaths(info *types.Info, fset *token.FileSet, list []ast.Stmt, lim
 						txt := types.ExprString(t.Cond)
 						if arm {
 							c.path.Taken = append(c.path.Taken, txt)
+							c.path.Conds = append(c.path.Conds, condLit{Expr: t.Cond})
 							next = append(next, run([]state{c}, t.Body.List)...)
 						} else {
 							c.path.Taken = append(c.path.Taken, "not("+txt+")")
+							c.path.Conds = append(c.path.Conds, condLit{Expr: t.Cond, Neg: true})
 							switch e := t.Else.(type) {
 							case nil:
 								next = append(next, c)
